@@ -1,6 +1,7 @@
 import Ruint.Model.Shift
 import Ruint.Gen.WordsUint
 import Ruint.Gen.WordsShiftOps
+import Ruint.Gen.WordsIntShift
 /-! Driver for C05: evaluates the model (`Ruint.Shift.*` on limb lists) and the spec (ℕ arithmetic).
 
 Case lines: `op bits value amount` — `value` hex `< 2^bits`; `amount` hex: a `usize` (methods), the
@@ -49,6 +50,56 @@ def sAshr (bits x s : Nat) : Nat :=
 
 def startsWith (s p : String) : Bool := p.toList.isPrefixOf s.toList
 
+/-- the integer-typed operator impls GENERATED from `impl_shift!` (`Gen/WordsIntShift`; `Props/C05.gen_int_shift_shapes`):
+    the `@main` arm for the by-value / by-reference forms, the `@assign` arm for the assign forms. -/
+def genShlInt (ty : String) (assign : Bool) (f bits L : Nat) (a : List Nat) (s : Nat) : Option (List Nat) :=
+  match ty, assign with
+  | "usize", false => some (Ruint.Gen.uint_shl_usize f bits L a s)
+  | "usize", true => some (Ruint.Gen.uint_shl_assign_usize f bits L a s)
+  | "u8", false => some (Ruint.Gen.uint_shl_u8 f bits L a s)
+  | "u8", true => some (Ruint.Gen.uint_shl_assign_u8 f bits L a s)
+  | "u16", false => some (Ruint.Gen.uint_shl_u16 f bits L a s)
+  | "u16", true => some (Ruint.Gen.uint_shl_assign_u16 f bits L a s)
+  | "u32", false => some (Ruint.Gen.uint_shl_u32 f bits L a s)
+  | "u32", true => some (Ruint.Gen.uint_shl_assign_u32 f bits L a s)
+  | "isize", false => some (Ruint.Gen.uint_shl_isize f bits L a s)
+  | "isize", true => some (Ruint.Gen.uint_shl_assign_isize f bits L a s)
+  | "i8", false => some (Ruint.Gen.uint_shl_i8 f bits L a s)
+  | "i8", true => some (Ruint.Gen.uint_shl_assign_i8 f bits L a s)
+  | "i16", false => some (Ruint.Gen.uint_shl_i16 f bits L a s)
+  | "i16", true => some (Ruint.Gen.uint_shl_assign_i16 f bits L a s)
+  | "i32", false => some (Ruint.Gen.uint_shl_i32 f bits L a s)
+  | "i32", true => some (Ruint.Gen.uint_shl_assign_i32 f bits L a s)
+  | "u64", false => some (Ruint.Gen.uint_shl_u64 f bits L a s)
+  | "u64", true => some (Ruint.Gen.uint_shl_assign_u64 f bits L a s)
+  | "i64", false => some (Ruint.Gen.uint_shl_i64 f bits L a s)
+  | "i64", true => some (Ruint.Gen.uint_shl_assign_i64 f bits L a s)
+  | _, _ => none
+
+def genShrInt (ty : String) (assign : Bool) (f bits L : Nat) (a : List Nat) (s : Nat) : Option (List Nat) :=
+  match ty, assign with
+  | "usize", false => some (Ruint.Gen.uint_shr_usize f bits L a s)
+  | "usize", true => some (Ruint.Gen.uint_shr_assign_usize f bits L a s)
+  | "u8", false => some (Ruint.Gen.uint_shr_u8 f bits L a s)
+  | "u8", true => some (Ruint.Gen.uint_shr_assign_u8 f bits L a s)
+  | "u16", false => some (Ruint.Gen.uint_shr_u16 f bits L a s)
+  | "u16", true => some (Ruint.Gen.uint_shr_assign_u16 f bits L a s)
+  | "u32", false => some (Ruint.Gen.uint_shr_u32 f bits L a s)
+  | "u32", true => some (Ruint.Gen.uint_shr_assign_u32 f bits L a s)
+  | "isize", false => some (Ruint.Gen.uint_shr_isize f bits L a s)
+  | "isize", true => some (Ruint.Gen.uint_shr_assign_isize f bits L a s)
+  | "i8", false => some (Ruint.Gen.uint_shr_i8 f bits L a s)
+  | "i8", true => some (Ruint.Gen.uint_shr_assign_i8 f bits L a s)
+  | "i16", false => some (Ruint.Gen.uint_shr_i16 f bits L a s)
+  | "i16", true => some (Ruint.Gen.uint_shr_assign_i16 f bits L a s)
+  | "i32", false => some (Ruint.Gen.uint_shr_i32 f bits L a s)
+  | "i32", true => some (Ruint.Gen.uint_shr_assign_i32 f bits L a s)
+  | "u64", false => some (Ruint.Gen.uint_shr_u64 f bits L a s)
+  | "u64", true => some (Ruint.Gen.uint_shr_assign_u64 f bits L a s)
+  | "i64", false => some (Ruint.Gen.uint_shr_i64 f bits L a s)
+  | "i64", true => some (Ruint.Gen.uint_shr_assign_i64 f bits L a s)
+  | _, _ => none
+
 def handle (args : List String) (_impl : String) : String × String :=
   match args with
   | [op, bs, as, ss] =>
@@ -62,9 +113,15 @@ def handle (args : List String) (_impl : String) : String × String :=
     else if startsWith op "shrU_" then
       (out (Ruint.Gen.uint_shr_uint (nlimbs bits + 1) bits (nlimbs bits) a (u bits ss)), toHex (sShr bits x s))
     else if startsWith op "shl_" then
-      (out (shlInt bits a s), toHex (sShl bits x s))
+      let (ty, form) := match op.splitOn "_" with | [_, t, fm] => (t, fm) | _ => ("", "")
+      ((match genShlInt ty (form == "a" || form == "ar") (nlimbs bits + 1) bits (nlimbs bits) a s with
+        | some r => out r
+        | none => out (shlInt bits a s)), toHex (sShl bits x s))
     else if startsWith op "shr_" then
-      (out (shrInt bits a s), toHex (sShr bits x s))
+      let (ty, form) := match op.splitOn "_" with | [_, t, fm] => (t, fm) | _ => ("", "")
+      ((match genShrInt ty (form == "a" || form == "ar") (nlimbs bits + 1) bits (nlimbs bits) a s with
+        | some r => out r
+        | none => out (shrInt bits a s)), toHex (sShr bits x s))
     else match op with
     -- `oshl` / `oshr`: the methods GENERATED from the source (`Props/C05.gen_overflowing_shl_eq`, `…_shr_eq`)
     | "oshl" => (outF (Ruint.Gen.uint_overflowing_shl (nlimbs bits + 1) bits (nlimbs bits) a s), toHex (sShl bits x s) ++ " " ++ boolStr (sShlF bits x s))
